@@ -133,7 +133,7 @@ class Cache(Machine):
             "fast_stack": True,
             "clock": "advancing",
             "faults_enabled": s.chance(0.4),
-            "fault_kinds": s.subset(["crash", "enospc", "eio_read", "short_read", "short_write", "open_fail"], 0.6),
+            "fault_kinds": s.subset(["crash", "enospc", "eio_read", "short_read", "short_write", "write_fail", "open_fail"], 0.6),
             "rerun_after_crash": s.chance(0.8),
         }
         big_eb = tier == "thorough" and s.chance(0.15)
